@@ -1,5 +1,6 @@
 import Cdecao.Proofs.NodeRoom
 import Cdecao.Proofs.NodeEng2
+import Cdecao.Proofs.SpecExec
 /-! # C06 — room limits are respected by every reported solution -/
 namespace Props
 open N2 RG
@@ -38,5 +39,18 @@ theorem C06 (I : Inst) (R : RoomFns) (rooms : List Nat) (hr : I.roomSizes = some
         simp only [hrun, Eng3.Res.feasible.injEq] at hres
         obtain ⟨rfl, _⟩ := hres
         exact N2.C06_node I R f _ sc' rooms hr hrun
+
+/-- C06 in the form the check evaluates: `roomOKb` sorts the effective sizes and the given rooms in
+    descending order and compares them rank by rank, missing rooms counting as size 0 -/
+theorem C06_exec (I : Inst) (R : RoomFns) (rooms padded : List Nat) (hr : I.rooms = some rooms)
+    (hp : I.roomSizes = some padded) (top T : Nat) :
+    letI := solverOf I R
+    ∀ c : Eng3.Cfg Node (List (Option Nat)),
+      Eng3.Reach rootNode top T c → ∀ al, c.best = some al →
+      ∃ a : Nat → Option Nat, al = (List.range I.P).map a ∧ RSpec.roomOKb I R a rooms = true := by
+  letI := solverOf I R
+  intro c hreach al hal
+  obtain ⟨a, h1, h2⟩ := C06 I R padded hp top T c hreach al hal
+  exact ⟨a, h1, (roomOKb_iff I R a rooms padded hr hp).2 h2⟩
 
 end Props
